@@ -521,8 +521,12 @@ def gen_cases(ctx, n):
                     c['skip_ref'] = True
             if rng.random() < 0.2:
                 c['pp'] = True                     # the classes of this case are declared under postponed annotations
+            elif rng.random() < 0.15 and not c.get('skip_ref'):
+                # class hierarchy: the case's class subclasses a class of the same fields with ANOTHER constructor id, whose
+                # instance is serialized first
+                c['sub_of'] = rng.choice([i for i in G.IDS if i != t[1]])
             cases.append(c)
-            if rng.random() < 0.5 and not c.get('skip_ref'):
+            if rng.random() < 0.5 and not c.get('skip_ref') and c.get('sub_of') is None:
                 # sequence on one object: after all routes the object is edited IN PLACE into a second content and
                 # serialized again; the second content is also a case of its own (fresh object, decided against the reference)
                 c['x2'] = G.rand_val(rng, t)
